@@ -150,6 +150,7 @@ pub fn minimise_p(ctx: &Ctx, wd: &WorkerDir, job: &Job, p: &Perturb, inv: &str) 
     try_reset!(src_mtime);
     try_reset!(host);
     try_reset!(ncpu);
+    try_reset!(src_symlink);
     try_reset!(prev_run);
     try_reset!(persist_home);
     try_reset!(hash_seed);
